@@ -186,6 +186,12 @@ def size_failure_hits(env, ref, q, direction, path, hits, cs):
              direction=direction, path=path, window=window_class(size - cs), cs=cs, cause=cause)
 
 
+def failed_names(text):
+    """names under which the failure of request `text` may be reported: as asked, with or without the {count}"""
+    base = text[:text.rindex("{")] if text.endswith("}") and "{" in text else text
+    return (text, base)
+
+
 def check_read(env, ref, op, outcome, res, hits, ctx):
     reqs = op["reqs"]
     n = len(reqs)
@@ -226,6 +232,10 @@ def check_read(env, ref, op, outcome, res, hits, ctx):
                 hits.hit("C03", "result.failure", f"request {q['text']!r} ({q.get('invalid') or 'injected status'}) gave "
                          f"{t!r}", cause=q.get("invalid") or "injected", what="truthy" if truthy else "empty-error",
                          rw="r")
+            elif t.tag not in failed_names(q["text"]):
+                # the i-th result belongs to the i-th request: a failure is reported under the name that was asked for
+                hits.hit("C03", "result.failure", f"failed request {q['text']!r} came back under the name {t.tag!r}",
+                         cause=q.get("invalid") or "injected", what="name", rw="r")
             continue
         ast = q["ast"]
         memo_k = id(ast)
@@ -306,6 +316,9 @@ def check_write(env, ref, op, before, outcome, res, hits, ctx):
                 hits.hit("C03", "result.failure", f"write {q['text']!r} ({q.get('invalid') or 'injected status'}) gave "
                          f"{t!r}", cause=q.get("invalid") or "injected", what="truthy" if bool(t) else "empty-error",
                          rw="w")
+            elif t is not None and t.tag not in failed_names(q["text"]):
+                hits.hit("C03", "result.failure", f"failed write {q['text']!r} came back under the name {t.tag!r}",
+                         cause=q.get("invalid") or "injected", what="name", rw="w")
             if q.get("injected") and q.get("ast") is not None and t is not None and bool(t):
                 pass        # success was reported for a write the controller refused: judge it like any reported success
             elif q.get("injected") and q.get("ast") is not None:
@@ -1205,7 +1218,8 @@ def gen_rw_op(r, ref, oid, rw, prop, micro, with_prog, tier):
     reqs, vals = [], []
     taken = []
     long_strings = 0.15 if prop in ("C02",) else 0.05
-    p_invalid = 0.25 if prop == "C03" else 0.0
+    # a few requests that cannot succeed also next to the valid ones of C01/C02 runs: the valid ones keep their outcome
+    p_invalid = 0.25 if prop == "C03" else (0.05 if prop in ("C01", "C02") else 0.0)
     feat = {"p_bit": 0.25 if prop == "C02" else 0.15}
     attempts = 0
     while len(reqs) < n and attempts < n * 6:
@@ -1255,7 +1269,8 @@ def gen_rw_op(r, ref, oid, rw, prop, micro, with_prog, tier):
     if for_write:
         op["values"] = vals
         op["flat"] = len(reqs) == 1 and r.random() < 0.5
-    if (prop == "C03" and r.random() < 0.35) or (prop == "C02" and for_write and r.random() < 0.15):
+    if (prop == "C03" and r.random() < 0.35) or (prop == "C02" and for_write and r.random() < 0.15) or \
+            (prop == "C01" and not for_write and r.random() < 0.1):
         # the controller itself refuses one of the services (any non-zero general status)
         valid_idx = [i for i, q in enumerate(reqs) if not q.get("invalid")]
         if valid_idx:
@@ -1283,6 +1298,7 @@ def directed(tier, prop):
         out += directed_sizes(tier)
         out += directed_struct_sizes(tier)
         out += directed_multi_fill(tier)
+        out += directed_borrowed(tier)
     if prop == "C03":
         out += directed_shapes()
         out += directed_sizes_mixed()
@@ -1466,6 +1482,31 @@ def directed_multi_fill(tier):
                         "net": {"chunk": "whole", "send": "all", "latency": "zero"},
                         "driver": {"cls": "LogixDriver", "path": "10.0.0.1", "init_tags": True, "init_program_tags": False,
                                    "log": "off", "seq_advance": 0}, "ops": ops, "faults": []})
+    return out
+
+
+def directed_borrowed(tier):
+    """C04: the documented second connection with borrowed tag definitions (init_tags=False, plc2._tags = plc1.tags).
+    Its very first connected operation is a read around the 500-byte connection size towards a target that
+    refuses the extended Forward Open - on a Micro800 nothing before that read has opened the connection"""
+    out = []
+    for micro in (True, False):
+        for size in range(440, 560, 2 if tier == "quick" else 1):
+            tags = [{"name": "buf", "type": "SINT", "dims": [size]}, {"name": "small", "type": "DINT", "dims": []}]
+            world = base_world(tags, large=False, layout="micro800" if micro else "compact", fw=12 if micro else 32)
+            if micro:
+                world["identity"]["product_name"] = "2080-LC50-48QWB"
+            big = {"scope": None, "tag": "buf", "idx": None, "path": [], "bit": None, "count": size}
+            small = {"scope": None, "tag": "small", "idx": None, "path": [], "bit": None, "count": None}
+            ops = [{"id": "o0", "kind": "open"},
+                   {"id": "o1", "kind": "read", "reqs": [{"text": "small", "ast": small, "invalid": None}]},
+                   {"id": "o2", "kind": "close"}]
+            by = {"mode": "shared_tags", "open_before": "o1",
+                  "reads": {"o1": {"id": "o1B", "kind": "read", "reqs": [{"text": render(big)[0], "ast": big, "invalid": None}]}}}
+            out.append({"engine": "logix", "seed": 5000 + size, "prop": "C04", "world": world,
+                        "net": {"chunk": "whole", "send": "all", "latency": "zero"},
+                        "driver": {"cls": "LogixDriver", "path": "10.0.0.1", "init_tags": True, "init_program_tags": False,
+                                   "log": "off", "seq_advance": 0}, "ops": ops, "faults": [], "bystander": by})
     return out
 
 
